@@ -1,5 +1,6 @@
 import FsDb.Model.VFile
 import FsDb.Model.Codec
+import FsDb.Model.Config
 /-!
   Line-protocol driver: one operation per line on stdin, one answer per line on stdout.
   Imports model/spec modules only (core Lean) so that it links as an executable.
@@ -65,11 +66,43 @@ def stepCodec (args : List String) : String :=
     | none => "bad-op"
   | _ => "bad-op"
 
+def cfgSetting (s : String) : Option Config.Setting :=
+  match s.toList with
+  | [f, e] =>
+    let fl : Option Config.FileL := match f with
+      | 'a' => some .absent | 'p' => some .present | 'z' => some .zero | 'm' => some .malformed | _ => none
+    let el : Option Config.EnvL := match e with
+      | 'u' => some .unset | 'e' => some .empty | 'p' => some .present | 'm' => some .malformed | _ => none
+    match fl, el with
+    | some a, some b => some ⟨a, b⟩
+    | _, _ => none
+  | _ => none
+
+def cfgTok : Config.Tok → String
+  | .D => "D" | .F => "F" | .E => "E" | .Z => "Z" | .C => "C"
+
+/-- C20 sub-protocol (`cfg file|nofile s1 … s7`). -/
+def stepCfg (args : List String) : String :=
+  match args with
+  | [hf, a, b, c, d, e, f, g] =>
+    match cfgSetting a, cfgSetting b, cfgSetting c, cfgSetting d, cfgSetting e, cfgSetting f, cfgSetting g with
+    | some a, some b, some c, some d, some e, some f, some g =>
+      if hf != "file" && hf != "nofile" then "bad-op" else
+      match Config.load (hf == "file") ⟨a, b, c, d, e, f, g⟩ with
+      | .ok r => " ".intercalate ("ok" :: [r.port, r.dbPath, r.dirCount, r.rootDirs, r.gcPeriod, r.numWorkers, r.sendDuration].map cfgTok)
+      | .error .decode => "e:decode"
+      | .error .envParse => "e:env"
+      | .error .emptyDbPath => "e:EmptyDbPath"
+      | .error .emptyRootDirs => "e:EmptyRootDirs"
+    | _, _, _, _, _, _, _ => "bad-op"
+  | _ => "bad-op"
+
 def step (st : St) (line : String) : St × String :=
   match (line.trimAscii.toString.splitOn " ").filter (· ≠ "") with
   | "vf" :: args => let r := stepVF st.vf args; ({ st with vf := r.1 }, r.2)
   | "enc" :: args => (st, stepCodec ("enc" :: args))
   | "dec" :: args => (st, stepCodec ("dec" :: args))
+  | "cfg" :: args => (st, stepCfg args)
   | [] => (st, "")
   | _ => (st, "bad-op")
 
